@@ -23,6 +23,7 @@ EXPLANATION = (
     "frame can only reach an accepting path, whatever its payload bytes. Covers AA55 checksum width/signedness (R1), response "
     "type comparison (R2), validator/trimmer/offset-map layout agreement (R3), RTU trailing bytes (R4) and the signedness of "
     "the echoed value against the provenance of written values (R5). Does not decide CRC arithmetic on concrete frames."
+    ' R5 also requires every single-register write command to hand the validator exactly the value expression it puts on the wire (wire-value).'
 )
 
 
